@@ -31,7 +31,7 @@ VARIABLES l,        \* next line
 tvars == <<vars, l, cid, mon, viol, ndiv, divs, dflag, ncases>>
 
 Mon0 == [runs |-> 0, got |-> 0, refs |-> 1, lv |-> 0, lc |-> 0,
-         thenDone |-> FALSE, finDone |-> FALSE, finVal |-> 0, due |-> FALSE, ctx |-> "alive", selfReg |-> FALSE]
+         thenDone |-> FALSE, finDone |-> FALSE, finVal |-> 0, due |-> FALSE, ctx |-> "alive", selfReg |-> FALSE, r2 |-> 0]
 
 TInit ==
     /\ Init /\ kind = "void"
@@ -52,6 +52,7 @@ ModelAct(ev) ==
       [] ev.e = "DestroyCtx"  -> DestroyCtx
       [] ev.e = "DropAll"     -> DropAll
       [] ev.e = "Then"        -> Then(ev.b, ev.sc)
+      [] ev.e = "ThenLate"    -> ThenLate(ev.sc)
       [] ev.e = "Finish"      -> Finish(ev.v, ev.b)
       [] OTHER                -> FALSE
 
@@ -70,14 +71,16 @@ MonNext(m, ev) ==
         due |-> m.due \/ (later /\ m.ctx = "alive"),
         ctx |-> o.ctx,
         \* a self-capturing continuation was registered (then() before finish())
-        selfReg |-> m.selfReg \/ (isThen /\ ev.sc /\ ~m.finDone)]
+        selfReg |-> m.selfReg \/ (isThen /\ ev.sc /\ ~m.finDone),
+        r2 |-> ev.r2]          \* runs of continuations attached when no value was left
 
 Failed(m, n) ==
-    {p \in {"AtMostOnce", "ValueSeen", "ExactlyOnce", "Released", "NoRunAfterDeath"} :
+    {p \in {"AtMostOnce", "ValueSeen", "ExactlyOnce", "Released", "NoRunAfterDeath", "NoValueNoRun"} :
         CASE p = "AtMostOnce"  -> ~P_AtMostOnce(n.runs)
           [] p = "ValueSeen"   -> ~P_Value(n.runs, n.got, n.finVal)
           [] p = "ExactlyOnce" -> ~P_ExactlyOnce(n.runs, n.due)
           [] p = "Released"    -> ~P_Released(n.refs, n.selfReg /\ n.runs = 0, n.lv, n.lc)
+          [] p = "NoValueNoRun" -> ~P_NoValueNoRun(kind, n.r2)
           [] p = "NoRunAfterDeath" -> m.ctx = "dead" /\ n.runs # m.runs}
 
 ResetStep(ev) ==
